@@ -144,7 +144,7 @@ def ctor_rules(rep, prog):
         if r.exctype == "ValueError" and r.path and npred(strip_wrappers(r.path[-1][0]), r.path[-1][1]) == want:
             hit = r
     if hit is None:
-        rep.bad("GUARD.ctor", fwhere(f4), "no ValueError exactly when len(mean) != len(covariance)")
+        rep.bad_form("GUARD.ctor", fwhere(f4), "no ValueError exactly when len(mean) != len(covariance)")
     else:
         stores = S4.select("attrstore", qname=f4.qname)
         late = [s for s in stores if (hit.path[-1][0], not hit.path[-1][1]) not in s.path]
@@ -215,7 +215,7 @@ def run(prog, rep, tier):
             if cand:
                 rep.unk("GUARD.conditional." + k, fwhere(f, cand[0].node), "a ValueError guard reads %s in a form that is not decided: %s" % (label, fmt(cand[0].path[-1][0])[:80]))
             else:
-                rep.bad("GUARD.conditional." + k, fwhere(f), "no ValueError is raised exactly when %s" % label)
+                rep.bad_form("GUARD.conditional." + k, fwhere(f), "no ValueError is raised exactly when %s" % label)
             continue
         cond = (r.path[-1][0], not r.path[-1][1])
         late = [x for x in invs if cond not in x.path]
